@@ -724,3 +724,31 @@ def a_new_connection_starts_clean_and_running(ctx):
             other, _ = _side(cfg, t, False)
             ctx.check(bool(rets & side) and mk <= other and not (mk & side - other), f'{f.qualname}:an existing connection is kept', t.ast, 'return on the connected side',
                       f'`{src(t.ast)}`: connect() returns without connecting when there is NO connection and tears into a live one otherwise', f)
+
+
+@rule('C11.R15', min_instances=3)
+def one_connect_at_a_time(ctx):
+    """SecopClient.connect is entered from several threads (the first requests on a fresh client, a request during an
+    automatic reconnect): the test "already connected", the replacement of the queues, the creation of the connection object
+    and the start of the worker threads form one region of `self._lock` - outside it two callers both open a connection, four
+    workers start, one connection and one transmit thread are left over and disconnect() can hang"""
+    m = ctx.m
+    f = m.method(C, 'connect', inherited=False)
+    ctx.analysed(f)
+    from sa.lib import deep_calls, in_lock_deep
+    n = 0
+    sites = []
+    for c, owner, site in deep_calls(m, f, lambda c: call_name(c) in ('mkthread', 'AsynConn') or (isinstance(c.func, ast.Name) and c.func.id in ('mkthread', 'AsynConn'))):
+        sites.append((c, owner, site, f'`{src(c)[:50]}`'))
+    units = [(f, None)] + [(h, site) for site, h in helper_methods_called(m, f)]
+    for g, site in units:
+        for t, v, s in attr_stores(g.node):
+            if dotted(t.value) == 'self' and t.attr in ('txq', 'pending', 'io') and not (isinstance(v, ast.Constant) and v.value is None):
+                sites.append((s, g, site if site is not None else s, f'`{src(s)[:50]}`'))
+    for node, owner, site, what in sites:
+        n += 1
+        ctx.check(in_lock_deep(node, owner, site, '_lock'), f'{f.qualname}:{what} inside the connect lock', node, 'inside `with self._lock`',
+                  f'{what} happens outside the `self._lock` region of connect(): two threads connecting at once both pass the "already connected" test and both '
+                  'open a connection and start worker threads - one connection and one transmit thread are left over, disconnect() may hang', f)
+    if n < 3:
+        raise AnchorMissing('creation of the connection / queues / worker threads not found in SecopClient.connect')
